@@ -26,7 +26,7 @@ from dsim.world import World
 ID = 'C07'
 LEVEL = 'fault_enumeration'
 CLASSES = [('cuts_writer', 4), ('cuts_foreign', 4), ('crash', 1),
-           ('overtake', 1), ('length', 3)]
+           ('overtake', 1), ('length', 3), ('length_delta', 2)]
 TIERS = {'quick': {'chunk': 10, 'budget_s': 25.0},
          'thorough': {'chunk': 40}}
 RULE = ('per generated file (writer- or foreign-produced) EVERY cut point '
@@ -55,7 +55,7 @@ def generate(rng, tier, cls):
     bs = rng.choice([None, None, 1, 5, 16, 64, 97, 1000])
 
     if cls in ('cuts_writer', 'crash', 'overtake') or \
-       (cls == 'length' and rng.chance(0.5)):
+       (cls in ('length', 'length_delta') and rng.chance(0.5)):
         k = 3 if tier == 'thorough' else 2
         main, ops = gen.gen_history(rng, max_changes=k, max_files=k)
         prod = {'id': 'P1', 'kind': 'writer', 'file': 'f1',
@@ -77,6 +77,10 @@ def generate(rng, tier, cls):
                           else rng.randint(0, 1500)}]
     elif cls == 'overtake':
         scn['overtake_after'] = rng.randint(0, len(prod.get('ops', ())) + 1)
+    elif cls == 'length_delta':
+        # every small delta on every content section of the file
+        scn['length_deltas'] = [-5, -4, -3, -2, -1, 1, 2, 3, 4, 5,
+                                rng.randint(-40, -6), rng.randint(6, 40)]
     else:
         k = rng.below(3)
         f = {'kind': 'length_fault', 'file': 'f1', 'key': 'length',
@@ -342,6 +346,98 @@ def execute(scn, L):
             one_cut(k, 'cut')
 
         out.nontrivial = out.case_weight > 0
+        return out
+
+    if scn.get('length_deltas'):
+        # length legitimately frames other bytes now: the truth is the
+        # reference parser's reading of the perturbed file (records up to
+        # its first rejection, then a parse error), never an altered record
+        from dsim.world import rewrite_header
+        contents = [i for i, r in enumerate(ref) if '_eff' in r]
+        nd = 0
+
+        for i in contents:
+            hs, he, ce = spans[i]
+
+            for d in scn['length_deltas']:
+                if not isinstance(d, int) or d == 0:
+                    continue
+
+                newlen = (ce - he) + d
+
+                if newlen < 0:
+                    continue
+
+                new = rewrite_header(intact[hs:he], b'length',
+                                     str(newlen).encode('ascii'))
+
+                if new is None:
+                    continue
+
+                faulty = intact[:hs] + new + intact[he:]
+                partial = []
+                rej = None
+
+                try:
+                    R.ref_parse(faulty, None, partial)
+                except R.RefReject as e:
+                    rej = e
+                except Exception:
+                    continue
+
+                want = list(partial)
+                wk = World(scn, L)
+                recs, e, x = read_all(wk, faulty, block_size=bs,
+                                      actor='delta')
+                out.absorb(wk)
+                out.evals += 1
+                nd += 1
+                info = dict(ctx, section=i, delta=d)
+                out.states.add('delta|%s|%s|%s' % (
+                    ref[i]['type'], 'neg' if d < 0 else 'pos',
+                    rej.kind if rej else 'accepted'))
+
+                if e in ('cap', 'hang'):
+                    out.violate('C07.no-termination', 'length-delta', info)
+                    return out
+
+                if rej is not None and rej.kind == 'length-beyond-eof':
+                    continue        # that case belongs to the `length` class
+
+                if len(recs) > len(want) or (rej is None and e != 'eof'):
+                    info.update({'yielded': len(recs),
+                                 'reference': len(want),
+                                 'reference_rejects': rej.kind if rej
+                                 else None})
+                    out.violate('C07.delta-beyond-reference',
+                                '%s:%s' % (ref[i]['type'],
+                                           'neg' if d < 0 else 'pos'), info)
+                    return out
+
+                if not pipe.check_records_against_ref(
+                        out, 'C07.delta-record', ref[i]['type'], recs,
+                        want[:len(recs)]):
+                    return out
+
+                if rej is not None:
+                    if e == 'eof' or len(recs) < len(want):
+                        if e == 'eof':
+                            info['reference_rejects'] = rej.kind
+                            out.violate('C07.delta-accepted', '%s:%s' % (
+                                ref[i]['type'], rej.kind), info)
+                            return out
+                    elif e == 'raise' and not exc_summary(x, L)['parse_error']:
+                        info['exc'] = exc_summary(x, L)
+                        out.violate('C07.other-exception', '%s:%s:%s' % (
+                            'length-delta', info['exc']['type'],
+                            info['exc']['func']), info)
+                        return out
+
+        out.faults['length_delta'] = nd
+        out.case_key = pipe.scn_digest([fdig, 'deltas',
+                                        scn['length_deltas']])
+        out.case_weight = nd
+        out.nontrivial = nd > 0
         return out
 
     if crash:
